@@ -133,15 +133,15 @@ def r_assert_msg(t):
 
 
 def r_pow2(t):
-    """R3a: 2u32.pow(X.into()) -> pow2_u32(X)"""
+    """R3a: 2u32.pow(X.into()) -> pow2_u32(X); 2u64.pow(X.into()) -> pow2_u64(X)"""
     out, i, n = [], 0, 0
     while i < len(t):
-        if t[i] == "2u32" and t[i + 1:i + 4] == [".", "pow", "("]:
+        if t[i] in ("2u32", "2u64") and t[i + 1:i + 4] == [".", "pow", "("]:
             close = _match_close(t, i + 3)
             inner = t[i + 4:close]
             if inner[-4:] == [".", "into", "(", ")"]:
                 inner = inner[:-4]
-            out += ["pow2_u32", "("] + inner + [")"]
+            out += ["pow2_" + t[i][1:], "("] + inner + [")"]
             n += 1
             i = close + 1
             continue
@@ -347,7 +347,7 @@ DOC = {
     "R1": "visibility (pub / pub(crate) / pub(super)) dropped, plain `pub` emitted",
     "R2": "assert_eq!/assert_ne!/debug_ variants -> assert!((a) == (b)) (kept as an obligation)",
     "R2c": "assert!/debug_assert! message arguments dropped (condition kept as an obligation)",
-    "R3a": "2u32.pow(x.into()) -> pow2_u32(x) (external_body helper, assumed spec 2^x)",
+    "R3a": "2u32.pow(x.into()) -> pow2_u32(x), 2u64.pow(x.into()) -> pow2_u64(x) (external_body helpers, assumed spec 2^x)",
     "R3b": "x.div_ceil(n) -> div_ceil_u32(x, n) (external_body helper, assumed spec ceil(x/n))",
     "R5": "Cow::Borrowed(e) -> e, return type Cow<'a,[u8]> -> &'a [u8] (only on functions that only ever borrow)",
     "R14": "`for x in &mut v { .. }` / `for x in v.iter_mut().rev() { .. }` -> index loop over the same elements in the same order (per item)",
